@@ -332,7 +332,7 @@ package connect
 //@   ensures res != nil && res != asErr(termerr(r.reader)) ==> res.code != 0                                   // label: own-errors-have-nonzero-code   // tags: C06
 //@   ensures res != nil && coded(termerr(r.reader)) && |old(rest(r.reader))| < 5 + (if |old(rest(r.reader))| >= 5 then declared(old(rest(r.reader))) else 0) && !(|old(rest(r.reader))| >= 5 && r.readMaxBytes > 0 && declared(old(rest(r.reader))) > r.readMaxBytes) && !(|old(rest(r.reader))| == 0 && termerr(r.reader) == io.EOF) ==> res == asErr(termerr(r.reader))   // label: coded-transport-error-passes-through   // tags: C15
 //@   assert@call((*bytes.Buffer).Grow#1): r.readMaxBytes <= 0 || size <= r.readMaxBytes                        // label: buffer-growth-within-limit   // tags: C09
-//@   loop 1:
+//@   loop remaining:
 //@     invariant 0 <= remaining && remaining <= size && size == declared(old(rest(r.reader))) && |old(rest(r.reader))| >= 5
 //@     invariant view(env.Data) == old(view(env.Data)) ++ old(rest(r.reader))[5:5+size-remaining]
 //@     invariant rest(r.reader) == old(rest(r.reader))[5+size-remaining:] && 5 + size - remaining <= |old(rest(r.reader))|
